@@ -73,6 +73,9 @@ private:
 	// this is the connection to the server the client's requests are forwarded
 	// to
 	asio::ip::tcp::socket m_server_connection;
+	// true while the server's name is being looked up or the connection to it
+	// is being established. Requests are queued in m_server_out_buffer
+	bool m_connecting;
 	// true while there is an outstanding write operation to the server
 	bool m_writing_to_server;
 
